@@ -17,7 +17,12 @@ def kind_of(res):
 
 
 def tags_of(ev):
-    return ",".join(sorted(set(ev.get("tags") or ["file"])))
+    """faulted tables of an execution; the two OpenType layout tables share their parser (script / feature /
+    lookup lists) and its amplification weakness, whatever other table a swap plan pairs them with"""
+    tags = set(ev.get("tags") or ["file"])
+    if tags & {"GSUB", "GPOS"}:
+        return "layout"
+    return ",".join(sorted(tags))
 
 
 def sig_of_result(r0, step, ev):
@@ -111,11 +116,11 @@ def run(c, a):
                     prelim.setdefault("pred=AllocBound table=" + tags_of(ev), []).append((ev, "", "live heap grew by %d KiB for a %d byte file" % (ev["allockb"], ev["size"])))
                 else:
                     prelim.setdefault("pred=%s" % f["pred"], []).append((ev, "", str(ev["raw"])[:300]))
-    # Timeouts and dead workers are only believed when they reproduce in isolation (a loaded machine must not raise alarms);
+    # Timeouts, dead workers and allocation-bound excesses are only believed when they reproduce in isolation (a loaded machine must not raise alarms);
     # the isolated run also gives the definitive classification (a time-out under load is usually an allocation storm).
     dropped = 0
     for sig, items in sorted(prelim.items()):
-        if sig.startswith("pred=Total exhaustion") or sig.startswith("pred=Total crash="):
+        if sig.startswith("pred=Total exhaustion") or sig.startswith("pred=Total crash=") or sig.startswith("pred=AllocBound"):
             for ev, step, r0 in items[:3]:
                 final = recheck(c, ev)
                 if final is None:
